@@ -13,7 +13,8 @@ TECH = ('bounded symbolic execution of the real photutils code (SYM: z3 '
 # id -> (design section, level text, level note, technique)
 CLAIMED = {
     'C04': ('3/C04',
-            'For every image up to 3x3 (thorough: 3x4, 4x4), every real/NaN '
+            'For every image up to 3x3 (thorough: 3x4, 4x4 and 5x5 images '
+            'built from two-component templates), every real/NaN '
             'pixel value, scalar or per-pixel threshold, mask, npixels and '
             'both connectivities, the label image returned by the unmodified '
             'detect_sources equals the reference component labelling of the '
@@ -57,9 +58,13 @@ CLAIMED = {
             'chosen position list (1-2 sources, thorough 3), presence of '
             'mask/error/xpeak,ypeak and footprint the centroid function '
             'receives exactly the per-position cutouts of the ORIGINAL '
-            'arrays and results are cutout result + offset.',
+            'arrays and results are cutout result + offset. Concrete '
+            'metamorphic family: centroid_com/quadratic/1dg/2dg x 3 scenes x '
+            '{symmetry centre, flips, transposition, data*1e4, data*1e-17, '
+            'values under the mask}.',
             'numpy.linalg.lstsq replaced by an exact rational solve; '
-            'centroid_1dg/2dg fits not covered; floats as reals',
+            'centroid_1dg/2dg only through the metamorphic relations '
+            '(tolerance 2e-5 pixel); floats as reals',
             TECH),
     'C14': ('3/C14',
             'find_peaks (unmodified, scipy maximum_filter replaced by its '
@@ -146,9 +151,11 @@ CLAIMED = {
             'untouched. normalize/unnormalize/first-read/encircled-energy '
             'histories (length <=4) on concrete data: every array equals '
             'fresh/normalisation, calc_ee_at_radius(radii)=profile and '
-            'calc_radius_at_ee inverts it on the monotone part.',
+            'calc_radius_at_ee inverts it on the monotone part. Non-negative '
+            'symbolic data => non-decreasing curve of growth at the listed '
+            'radii.',
             'compiled circular weights taken as given (C01); areas with '
-            '1e-9 tolerance; monotonicity for non-negative data not claimed',
+            '1e-9 tolerance; monotonicity with 1e-12 relative slack',
             TECH),
     'C16': ('3/C16',
             'Unmodified ApertureStats on symbolic data (NaN-extended), '
@@ -161,11 +168,16 @@ CLAIMED = {
             'max, mean, var, std, median, raw moments and centroid equal '
             'their definitions on the centre-in-aperture pixel set after '
             'local-background subtraction; off-image/all-masked => NaN. A '
-            'concrete differential family checks the interaction with a '
-            'real SigmaClip over solver-enumerated scenarios.',
+            'concrete differential family (3456 solver-enumerated '
+            'scenarios: real SigmaClip or none, bad column, outliers, NaN, '
+            'local background, sum_method, pedestal, circle / rotated '
+            'ellipse) compares 24 columns - centre statistics incl. mode and '
+            'MAD, sum/sum_err/sum_aper_area under the clip, centroid and '
+            'moment-based shape values - with direct computations.',
             'compiled weights as given (C01); polynomial identities (var, '
-            'std, sum_err) by normal-form comparison of the radicands; MAD/'
-            'biweight/mode/shape parameters not covered',
+            'std, sum_err) by normal-form comparison of the radicands; '
+            'clipped statistics and shape values only on the concrete '
+            'family; biweight/gini not covered',
             TECH),
     'C07': ('3/C07',
             'Unmodified SourceCatalog on symbolic data/error/background '
@@ -174,14 +186,20 @@ CLAIMED = {
             '(touching, nested in one bounding box, single-pixel, '
             'edge-hugging, non-consecutive labels, disconnected label): '
             'segment_flux, segment_fluxerr, area, segment_area, bbox_*, '
-            'min/max values and indices, raw moments, centroid, '
-            'background_sum/mean equal their definitions on the labelled, '
-            'unmasked, finite pixels; fully masked => NaN; renumbering the '
-            'labels changes nothing (solver equality of two symbolic runs). '
-            'A concrete differential family checks the local-background '
-            'relation segment_flux + area*local_background = sum(data).',
+            'min/max values and indices, raw and second-order central '
+            'moments, centroid, background_sum/mean equal their definitions '
+            'on the labelled, unmasked, finite pixels; fully masked => NaN '
+            '(also for a label whose bounding box is not fully masked); '
+            'renumbering the labels changes nothing (solver equality of two '
+            'symbolic runs). Concrete differential families check the '
+            'local-background relation segment_flux + area*local_background '
+            '= sum(data) and 17 moment-based shape columns (covariance incl. '
+            'the 1/12 rule, semi-axes, orientation, eccentricity, ..., '
+            'cxx/cyy/cxy) against their textbook definitions on one scene x '
+            'mask x NaN x negative pixels x convolved data.',
             'negative pixels of the moment image bounded to <=1 (thorough '
-            '2); covariance/shape/kron/fluxfrac properties not covered; row '
+            '2); shape parameters only on the concrete family (LAPACK, '
+            'arctan2); kron/fluxfrac/gini/perimeter not covered; row '
             'reordering is covered by the C08 check',
             TECH),
     'C11': ('3/C11',
@@ -315,7 +333,9 @@ CLAIMED = {
             'the number of unmasked pixels of the fit window inside the '
             'image, fixed parameters keep their initial value, blended '
             'pairs fitted together recover x, y, flux; per-source results '
-            'are invariant under row order, fluxes scale with the image, '
+            'are invariant under row order, fluxes scale with the image for '
+            'k in {3.5, 1e-3, 250} (k = 1e-9 is a recorded KNOWN-FINDING: '
+            'the fit is not scale free), '
             'IterativePSFPhotometry(maxiters=1) equals PSFPhotometry (also '
             'when the residual contains new detections). SourceGrouper on a '
             'solver-chosen half-integer lattice equals union-find on '
@@ -396,7 +416,8 @@ CLAIMED = {
             'flags, start offset, repeated calls): the isophote list is '
             'sorted by strictly increasing sma within the requested range, '
             'minsma=0 adds the central isophote, fixed parameters are '
-            'honoured (1e-12), well-sampled isophotes recover centre, eps, '
+            'honoured (1e-12; also after non-iterative outer isophotes, '
+            'maxrit < maxsma), well-sampled isophotes recover centre, eps, '
             'PA and intensity within stated tolerances, build_ellipse_model '
             'reproduces the image inside the fitted region, the image is '
             'untouched, a later fit_image call equals a fresh object, and '
